@@ -5,6 +5,9 @@ pub mod c02;
 pub mod c06;
 pub mod c08;
 pub mod c09;
+pub mod c13;
+pub mod c14;
+pub mod c15;
 
 pub fn all() -> Vec<Property> {
     vec![
@@ -13,5 +16,8 @@ pub fn all() -> Vec<Property> {
         c06::property(),
         c08::property(),
         c09::property(),
+        c13::property(),
+        c14::property(),
+        c15::property(),
     ]
 }
